@@ -49,6 +49,8 @@ def eval_comp(c, x):
         return float(x[0] * x[-1] + x[0])
     if k == "sin":
         return float(math.sin(x[0]) + 0.5 * np.sum(x[1:]))
+    if k == "sinf":
+        return float(math.sin(c["w"] * x[0]) + 0.5 * np.sum(x[1:]))
     if k == "aff":
         return float(np.asarray(c["a"], float) @ x)
     if k == "const":
@@ -496,7 +498,7 @@ def problems(draw, profile=None):
 
     def limits(v, allow_eq=True):
         """limits for a value v at the reference point: pattern and slack."""
-        pat = draw(wsample([("le", 4), ("ge", 3), ("two", 3), ("eq", 2 if allow_eq else 0), ("free", 1), ("nanl", 1), ("nanu", 1)]))
+        pat = draw(wsample(P.get("limit_pats") or [("le", 4), ("ge", 3), ("two", 3), ("eq", 2 if allow_eq else 0), ("free", 1), ("nanl", 1), ("nanu", 1)]))
         neg = pct(P["infeasible_prob"])
         s1 = draw(st.sampled_from([0.0, 0.125, 0.5, 1.0, 2.0]))
         s2 = draw(st.sampled_from([0.125, 0.5, 1.0, 2.0]))
@@ -536,13 +538,15 @@ def problems(draw, profile=None):
             L["ub_scalar"] = pct(30)
         lin.append(L)
     nl = []
-    for _ in range(draw(st.integers(0, P["max_nl"]))):
+    for _ in range(draw(st.integers(min(P.get("min_nl", 0), P["max_nl"]), P["max_nl"]))):
         form = draw(wsample(P["nl_forms"]))
         m = draw(wsample([(1, 5), (2, 3), (3, 1), (4, 1)]))
         comps = []
         for _ in range(m):
-            ck = draw(wsample([("ball", 4), ("prod", 2), ("sin", 2), ("aff", 2)]))
+            ck = draw(wsample(P.get("comp_kinds") or [("ball", 4), ("prod", 2), ("sin", 2), ("aff", 2), ("sinf", 1)]))
             c = {"kind": ck}
+            if ck == "sinf":
+                c["w"] = draw(st.sampled_from([2.0, 4.0, 8.0]))
             if ck == "ball":
                 c["c"] = [draw(dy(-2, 2)) for _ in range(n)]
             elif ck == "aff":
@@ -653,3 +657,22 @@ def problems(draw, profile=None):
     if faults:
         spec["faults"] = faults
     return enc(spec)
+
+
+# problems on which second-order-correction steps are frequent (about a quarter of the runs):
+# oscillating / bilinear equality constraints, no linear constraints, a few iterations
+SOC_PRONE = dict(
+    ns=[(2, 5), (3, 3)], min_nl=1, max_nl=2, max_lin=0, maxfev=(15, 60),
+    comp_kinds=[("sinf", 3), ("prod", 2), ("ball", 1)], limit_pats=[("eq", 3), ("two", 1), ("le", 1)],
+    obj_kinds=[("quad", 2), ("lin", 1)], infeasible_prob=30,
+    x0_pats=[("in", 2), ("lb", 1), ("ub", 1), ("below", 1), ("above", 1)],
+    bound_pats=[("free", 2), ("two", 3), ("lower", 1), ("narrow", 1)],
+)
+
+
+def problems_mix(weighted_profiles):
+    """Draw from several profiles with integer weights."""
+    pool = []
+    for prof, w in weighted_profiles:
+        pool.extend([prof] * w)
+    return st.integers(0, len(pool) - 1).flatmap(lambda i: problems(pool[i]))
